@@ -121,7 +121,7 @@ func RunWorker(a WorkerArgs) error {
 			samples++
 			enc.Encode(Event{Ev: "sample", I: i, Sample: obs.Sample})
 		}
-		if sum.Cases%500 == 0 || meta.Isolate {
+		if sum.Cases%50 == 0 || meta.Isolate {
 			enc.Encode(Event{Ev: "summary", Summary: sum})
 			hw.Flush()
 			w.Flush()
